@@ -228,6 +228,14 @@ func (m *Monitors) afterStep(s *Sim, role, tok string) {
 				fmt.Sprintf("%s failed handling an event (%q, fault plan %v) and is back at its role gate at once instead of waiting the error back-off of %v", tok, m.opFnErr, w.env.Faults, backoff))
 		}
 	}
+	// C11 / C07: a failing Recv (any error other than cancellation, whatever it wraps) fails the process's run: the receiver is closed
+	// and the process waits out the error back-off before it asks for its role again - it does not simply call Recv again
+	if m.opFailed && m.opFailLabel == "recv" && !m.opLeaseLost && !hasCancel && backoff > 0 && pk.kind == gRecv {
+		for _, prop := range []string{"C11", "C07"} {
+			m.violate(prop, "backoff-after-error", "receive-error-not-backed-off:"+strings.SplitN(tok, ":", 2)[0]+m.afterFlagIfAny(),
+				fmt.Sprintf("%s: Recv failed (fault plan %v) and the process is waiting in Recv again instead of closing the receiver and backing off %v", tok, w.env.Faults, backoff))
+		}
+	}
 	// C15: "a redelivered request leaves the run DataDeleted and scrubbed": the delete consumer must not fail on an event of a
 	// run that is already DataDeleted when nothing was injected and the delete function did not fail
 	if tok == "del" && !m.opFailed && !m.opLeaseLost && len(w.env.Faults) == 0 && m.w.env.Stale == 0 {
@@ -1167,10 +1175,34 @@ func (m *Monitors) atQuiescence(s *Sim) {
 		if rs := int(last.RunState); rs != 1 && rs != 2 {
 			continue
 		}
-		hasStep := false
+		hasStep, hasTimeout := false, false
 		for _, bc := range w.Cfg.Calls {
 			if bc.Kind == "step" && bc.From == last.Status {
 				hasStep = true
+			}
+			if bc.Kind == "timeout" && bc.From == last.Status {
+				hasTimeout = true
+			}
+		}
+		if hasTimeout {
+			// the same for the timeout inserter: the run's current version was handed to the timer function (C08: "resume
+			// re-announces the run at its current status", C12: "a timer is created when a run's arrival is processed")
+			timed := false
+			for _, inv := range w.Invocations {
+				if inv.Kind == "timer" && inv.Run == rr.ord && inv.SeenVer == last.Meta.Version && inv.Status == last.Status {
+					timed = true
+				}
+			}
+			if !timed {
+				props := []string{"C12", "C01"}
+				if len(rr.versions) >= 2 && int(rr.versions[len(rr.versions)-2].RunState) == 3 {
+					props = append(props, "C08")
+				}
+				for _, prop := range props {
+					m.violate(prop, "current-announcement-acted-on", "newest-arrival-never-timed"+m.afterFlag(),
+						fmt.Sprintf("run r%d rests at timeout status %d (run state %d, version %d), every process is idle - but the timer function was never handed version %d: the inserter did not process the run's newest arrival",
+							rr.ord, last.Status, int(last.RunState), last.Meta.Version, last.Meta.Version))
+				}
 			}
 		}
 		if !hasStep {
